@@ -66,7 +66,8 @@ func streamC11(env *runEnv) {
 	srv := newL2Server(true, 0)
 	defer srv.close()
 	points := []string{"start", "handshake", "tunnel", "auth", "channel", "data-c2h", "data-h2c", "data-both"}
-	causes := []string{"close-channel", "out-of-order", "unframeable", "tcp-close", "tcp-reset", "close-in-only", "close-out-only"}
+	causes := []string{"close-channel", "out-of-order", "unframeable", "tcp-close", "tcp-reset", "close-in-only", "close-out-only",
+		"repeat-channel-create", "close-in-before-first-byte", "unframeable-while-client-not-reading"}
 	reps := 1
 	if env.thorough() {
 		reps = 10
@@ -77,6 +78,16 @@ func streamC11(env *runEnv) {
 			for _, point := range points {
 				for _, cause := range causes {
 					if (cause == "close-in-only" || cause == "close-out-only") && transport == "ws" {
+						continue
+					}
+					// the three special endings each have one place where they make sense
+					if cause == "repeat-channel-create" && point != "channel" && point != "data-h2c" {
+						continue
+					}
+					if cause == "close-in-before-first-byte" && !(transport == "legacy" && point == "start") {
+						continue
+					}
+					if cause == "unframeable-while-client-not-reading" && point != "data-h2c" {
 						continue
 					}
 					n++
@@ -96,10 +107,51 @@ func runC11Cell(srv *l2server, transport, point, cause, id string) string {
 	if point == "data-h2c" || point == "data-both" {
 		hostStream = []byte(strings.Repeat("<host-data>", 60000)) // keeps the host talking for the whole cell
 	}
+	stalled := cause == "unframeable-while-client-not-reading"
+	if stalled {
+		hostStream = []byte(strings.Repeat("<host-data>", 1500000)) // more than the sockets on the way can hold
+	}
 	b := newTagBackend(hostStream)
 	b.pace = 4 * time.Millisecond
+	if stalled {
+		b.pace, b.piece = 0, 65536
+	}
 	defer b.close()
 	host, port := splitHostPort(b.addr)
+	if cause == "close-in-before-first-byte" {
+		// both channels accepted, then the inbound connection goes away before the client sent anything
+		out, outBr, st, err := legacyOpenOut(srv.inst, id, nil)
+		if err != nil || st != 200 {
+			return "ERR:out"
+		}
+		in, _, st2, err := legacyOpenIn(srv.inst, id, nil)
+		if err != nil || st2 != 200 {
+			out.Close()
+			return "ERR:in"
+		}
+		in.Close()
+		clientState := "closed"
+		out.SetReadDeadline(time.Now().Add(2300 * time.Millisecond))
+		buf := make([]byte, 4096)
+		for {
+			if _, err := outBr.Read(buf); err != nil {
+				if ne, ok := err.(net.Error); ok && ne.Timeout() {
+					clientState = "open"
+				}
+				break
+			}
+		}
+		out.Close()
+		got := snapshotResources()
+		st3 := func(ok bool) string {
+			if ok {
+				return "ok"
+			}
+			return "leak"
+		}
+		return fmt.Sprintf("backend=none client=%s registry=%s gauges=%s goroutines=%s", clientState,
+			st3(got.conns <= base.conns), st3(got.wsGauge <= base.wsGauge && got.lgGauge <= base.lgGauge), st3(got.goroutines <= base.goroutines))
+	}
 	c, err := openTunnel(srv.inst, tunnelScript{transport: transport, id: id})
 	if err != nil {
 		if os.Getenv("VERIF_DEBUG_STACK") != "" {
@@ -149,7 +201,12 @@ func runC11Cell(srv *l2server, transport, point, cause, id string) string {
 	}()
 	// one reader on the outbound side: drains what the gateway sends and notices when the gateway ends the stream
 	outClosed := make(chan struct{})
+	startReading := make(chan struct{})
+	if !stalled {
+		close(startReading)
+	}
 	go func() {
+		<-startReading
 		for {
 			_, err := c.recv(500 * time.Millisecond)
 			if err != nil {
@@ -186,6 +243,12 @@ func runC11Cell(srv *l2server, transport, point, cause, id string) string {
 		}
 	case "unframeable":
 		c.send(packetWithLen(ptData, nil, 4))
+	case "unframeable-while-client-not-reading":
+		time.Sleep(600 * time.Millisecond) // the relay is now blocked writing to a client that does not read
+		c.send(packetWithLen(ptData, nil, 4))
+		// the client starts reading only after the release has been measured (below)
+	case "repeat-channel-create":
+		c.send(packet(ptChannelCreate, channelCreateBody(host, port)))
 	case "tcp-close":
 		c.close()
 	case "tcp-reset":
@@ -213,6 +276,10 @@ func runC11Cell(srv *l2server, transport, point, cause, id string) string {
 			if eof {
 				backendState = "released"
 			}
+		}
+		if acc > 0 && eof && !b.allReleased() {
+			backendState = "open" // one of several backend connections was not released
+			eof = false
 		}
 		ok := got.conns <= base.conns && got.wsGauge <= base.wsGauge && got.lgGauge <= base.lgGauge && got.goroutines <= base.goroutines &&
 			(acc == 0 || eof)
@@ -243,8 +310,11 @@ func runC11Cell(srv *l2server, transport, point, cause, id string) string {
 			}
 		}
 	}
+	if stalled {
+		close(startReading)
+	}
 	switch cause {
-	case "close-channel", "out-of-order", "unframeable":
+	case "close-channel", "out-of-order", "unframeable", "repeat-channel-create", "unframeable-while-client-not-reading":
 		waitOut()
 		if l, ok := c.(*legacyConn); ok {
 			probeIn(l.in)
